@@ -85,7 +85,7 @@ def u_send_datapoint(ctx, index):
   ctx.check('C07/sendDatapoint/bound', z3.Implies(z3.ToReal(n0) <= h.hard, z3.ToReal(z3.Length(q)) <= h.hard))
   # C09: the full signal is raised exactly when an arrival finds the queue at MAX_QUEUE_SIZE
   full_events = h.log.of('events.cacheFull')
-  ctx.check('C09/sendDatapoint/full_signal_at_high_watermark',
+  ctx.check('aux/sendDatapoint/full_signal_at_high_watermark',
             z3.Implies(z3.And(n0 >= h.max_q, z3.Not(qf0)), z3.BoolVal(len(full_events) == 1)))
   ctx.check('C09/sendDatapoint/full_signal_only_at_high_watermark',
             z3.Implies(z3.BoolVal(len(full_events) > 0), z3.And(n0 >= h.max_q, z3.Not(qf0))))
@@ -117,7 +117,7 @@ def u_schedule_send(ctx, index):
   h.ip.run(FACTORY + '.scheduleSend', [], self_obj=h.factory)
   ctx.cover('scheduleSend/returns')
   n = len(h.log.of('reactor.callLater'))
-  ctx.check('C07/scheduleSend/at_most_one_timer', z3.And(z3.Implies(act0, z3.BoolVal(n == 0)),
+  ctx.check('aux/scheduleSend/at_most_one_timer', z3.And(z3.Implies(act0, z3.BoolVal(n == 0)),
                                                          z3.Implies(z3.Not(act0), z3.BoolVal(n == 1))))
   pend = h.factory.fields['deferSendPending']
   ctx.check('C09/scheduleSend/a_send_is_pending_afterwards',
@@ -189,7 +189,7 @@ def u_proto_send_queued(ctx, index):
   else:
     ctx.cover('sendQueued/sent')
     ctx.check('C07/sendQueued/one_message', z3.BoolVal(len(sent) == 1))
-    ctx.check('C07/sendQueued/not_while_paused', z3.Not(paused))
+    ctx.check('aux/sendQueued/not_while_paused', z3.Not(paused))
     s = sent[0]
     ok = isinstance(s, tuple) and s[0] == 'pickle.dumps' and isinstance(s[1], SymSeq)
     ctx.check('C15/pickle/_sendDatapointsNow/one_frame', z3.BoolVal(ok))
@@ -199,7 +199,7 @@ def u_proto_send_queued(ctx, index):
         ctx.check('C15/sendQueued/batch_is_the_queue_' + l, f)
       ctx.check('C15/pickle/_sendDatapointsNow/payload', z3.BoolVal(s[2] == 2))
     incs = [e[1] for e in h.log.of('instrumentation.increment')]
-    ctx.check('C07/sendQueued/sent_counted', z3.BoolVal(any(a[0] == 'sent' for a in incs) and any(a[0] == 'batchesSent' for a in incs)))
+    ctx.check('aux/sendQueued/sent_counted', z3.BoolVal(any(a[0] == 'sent' for a in incs) and any(a[0] == 'batchesSent' for a in incs)))
   # C09 (relay side)
   ctx.check('C09/sendQueued/I_bp_relay', relay_bp_inv(h))
   # something still queued after a send => another send is pending
@@ -228,7 +228,7 @@ def u_queue_full_callback(ctx, index):
   old = h.queue.term
   h.ip.run(FACTORY + '.queueFullCallback', [ctx.fresh(z3.IntSort(), 'result')], self_obj=h.factory)
   ctx.cover('queueFullCallback/returns')
-  ctx.check('C09/queueFullCallback/signals_full_once', z3.BoolVal(len(h.log.of('events.cacheFull')) == 1))
+  ctx.check('aux/queueFullCallback/signals_full_once', z3.BoolVal(len(h.log.of('events.cacheFull')) == 1))
   ctx.check('C07/queueFullCallback/queue_untouched', h.queue.term == old)
 
 
@@ -242,7 +242,7 @@ def u_check_queue(ctx, index):
   fired = len(qe.fired_with) == 1
   ctx.check('C07/checkQueue/queueEmpty_fires_iff_empty', z3.And(z3.Implies(n0 == 0, z3.BoolVal(fired)),
                                                                z3.Implies(n0 > 0, z3.BoolVal(not fired))))
-  ctx.check('C07/checkQueue/fresh_deferred_after_firing',
+  ctx.check('aux/checkQueue/fresh_deferred_after_firing',
             z3.BoolVal((h.factory.fields['queueEmpty'] is not qe) == fired and not as_py(h.factory.fields['queueEmpty'].called)))
 
 
@@ -295,15 +295,15 @@ def u_orderly_stop(ctx, index):
   closes = h.log.of('transport.loseConnection')
   ctx.check('C07/disconnect/queue_untouched', h.queue.term == old)
   ctx.check('C07/disconnect/closes_only_with_empty_queue', z3.Implies(z3.BoolVal(len(closes) > 0), n0 == 0))
-  ctx.check('C07/disconnect/at_most_one_close', z3.BoolVal(len(closes) <= 1))
-  ctx.check('C07/disconnect/stop_waits_for_the_queue', z3.BoolVal(len(qe.callbacks) == ncb + 1))
-  ctx.check('C07/disconnect/returns_a_deferred', z3.BoolVal(isinstance(r, Deferred)))
+  ctx.check('aux/disconnect/at_most_one_close', z3.BoolVal(len(closes) <= 1))
+  ctx.check('aux/disconnect/stop_waits_for_the_queue', z3.BoolVal(len(qe.callbacks) == ncb + 1))
+  ctx.check('aux/disconnect/returns_a_deferred', z3.BoolVal(isinstance(r, Deferred)))
   no_already_called(ctx, h, 'C07/disconnect')
   # empty queue and a live connection: closed now, and the factory stops reconnecting
   if len(closes) > 0:
     ctx.cover('disconnect/closed_now')
-    ctx.check('C07/disconnect/stops_reconnecting', z3.BoolVal(len(h.log.of('stopTrying')) == 1 and h.factory.fields['started'] is False))
-    ctx.check('C07/disconnect/close_marks_disconnected', z3.BoolVal(h.protocol.fields['connected'] is False))
+    ctx.check('aux/disconnect/stops_reconnecting', z3.BoolVal(len(h.log.of('stopTrying')) == 1 and h.factory.fields['started'] is False))
+    ctx.check('aux/disconnect/close_marks_disconnected', z3.BoolVal(h.protocol.fields['connected'] is False))
   # the later firing: a non-empty queue at stop time leaves the close to checkQueue
   if len(closes) == 0 and h.protocol is not None:
     h2n = h.queue.length()
@@ -316,6 +316,21 @@ def u_orderly_stop(ctx, index):
     closes2 = h.log.of('transport.loseConnection')
     ctx.cover('disconnect/then_checkQueue')
     ctx.check('C07/disconnect/later_close_only_with_empty_queue', z3.Implies(z3.BoolVal(len(closes2) > 0), h2n == 0))
+    if len(closes2) == 0:
+      # ... and a connection that is made after the stop was requested must not be closed while
+      # datapoints are still queued either
+      h.protocol.fields['connected'] = True
+      h.factory.fields['connectedProtocol'] = h.protocol
+      n3 = h.queue.length()
+      cm = h.factory.fields['connectionMade']
+      try:
+        if isinstance(cm, Deferred) and not as_py(cm.called):
+          cm.py_callback(h.ip, h.protocol)
+      except PyRaise:
+        pass
+      closes3 = h.log.of('transport.loseConnection')
+      ctx.check('C07/disconnect/connection_made_after_the_stop_is_not_closed_with_a_queue',
+                z3.Implies(z3.BoolVal(len(closes3) > 0), n3 == 0))
 
 
 def u_quality_monitor(ctx, index):
@@ -386,7 +401,7 @@ def u_destination_down(ctx, index):
     return
   removed = len(h.log.of('router.removeDestination')) == 1
   declared_down = z3.And(retries >= h.max_retries, h.dyn_router, has0)
-  ctx.check('C07/destinationDown/removes_iff_dynamic_and_exhausted',
+  ctx.check('aux/destinationDown/removes_iff_dynamic_and_exhausted',
             z3.And(z3.Implies(declared_down, z3.BoolVal(removed)), z3.Implies(z3.Not(declared_down), z3.BoolVal(not removed))))
   if removed:
     ctx.cover('destinationDown/removed')
@@ -542,7 +557,7 @@ def all_units(pid=None):
                                         'client.line._sendDatapointsNow', 'client.pickle._sendDatapointsNow')]
   if pid == 'C09':
     return [u for u in us if u.name in ('client.sendDatapoint', 'client.scheduleSend', 'client.protocol.sendQueued',
-                                        'client.queueSpaceCallback', 'client.queueFullCallback', 'client.resume_pause',
+                                        'client.queueSpaceCallback', 'client.resume_pause',
                                         'client.destinationDown')]
   return us
 
